@@ -96,7 +96,7 @@ def gen(d, tier):
         cc = d.pick([8, 12, 16, 24, 32, 48, 64, 100, 200])
     ev_cmd = d.below(len(cmds))
     crlf = d.below(2)
-    return dict(groups=groups, cc=cc, shared=d.below(2), ev_cmd=ev_cmd, crlf=crlf, ucc=max(0, d.pick(lens) + d.pick([0, 1, -1, 2, 30])))
+    return dict(groups=groups, cc=cc, shared=d.below(2), ev_cmd=ev_cmd, crlf=crlf, ucc=max(0, d.pick(lens) + d.pick([0, 1, -1, 2, 30])), odd=d.below(2))
 
 
 def spec_a(case):
@@ -110,7 +110,7 @@ def spec_a(case):
     cc = case["cc"]
     actions = [[S.AT_LINE, nlines, S.WA_TRIG, case["ev_cmd"], 1, None]]
     if case["shared"]:
-        return S.mk_spec(groups=S.clone(gs), input=inp, shared=True, bufsz=2 * cc, actions=actions)
+        return S.mk_spec(groups=S.clone(gs), input=inp, shared=True, bufsz=2 * cc + (1 if case.get("odd") else 0), actions=actions)
     return S.mk_spec(groups=S.clone(gs), input=inp, shared=False, bufsz=cc, ubufsz=case["ucc"], actions=actions)
 
 
